@@ -21,8 +21,11 @@ import (
 
 type verifStateMgr struct{ storage.StateManager }
 
+// verifFollowerOffline: what the cluster state says about the follower node
+var verifFollowerOffline bool
+
 func (f *verifStateMgr) GetLiveNode(models.NodeID) (models.StatefulNode, bool) {
-	return models.StatefulNode{}, true
+	return models.StatefulNode{}, !verifFollowerOffline
 }
 func (f *verifStateMgr) WatchNodeStateChangeEvent(models.NodeID, func(models.NodeStateType)) {}
 
@@ -309,3 +312,29 @@ func verifC08Reach() {
 // serialisation of the replica state into the stream's metadata is not the subject (stubs)
 func verifStubJSONMarshal(v interface{}) []byte                              { return []byte("{}") }
 func verifStubOutgoingCtx(ctx context.Context, kv ...string) context.Context { return ctx }
+
+// C08 (follower offline / online notifications): the handshake finds the follower offline and is about
+// to suspend the replicator while, on another thread, the follower comes online and the state
+// manager delivers the notification - every interleaving within the pre-emption bound. The
+// replicator does not stay suspended for a follower that is alive: the handshake returns (nobody is
+// left waiting for a notification that was already delivered), and it succeeds.
+func verifC08OnlineRace3() { verifC08OnlineRace() }
+
+func verifC08OnlineRace() {
+	verifFollowerOffline = true
+	p := verifSetup(1, 0, 0, 0)
+	if !verifIsSymbolic() {
+		// natively the spawned functions run one after the other: the first would wait for ever
+		verifFollowerOffline = false
+	}
+	ready := false
+	verifSpawn(func() { ready = p.rr.IsReady() })
+	verifSpawn(func() {
+		verifFollowerOffline = false // the cluster state changes first, then the watchers are told
+		p.rr.handleNodeStateChangeEvent(models.NodeOnline)
+	})
+	verifJoinAll()
+	verifFollowerOffline = false
+	verifAssert(ready, "the handshake succeeds once the follower is online")
+	verifReach("end")
+}
